@@ -223,11 +223,16 @@ type mEvent struct {
 }
 
 type recorder struct {
-	mu      sync.Mutex
-	ev      []mEvent
-	nAssoc  int
-	flood   int64 // calls dropped after max
-	max     int
+	mu     sync.Mutex
+	ev     []mEvent
+	nAssoc int
+	flood  int64 // calls dropped after max
+	max    int
+	// teardown window: RemoveNatEntry of association holdA blocks (after it has been recorded) until release is closed;
+	// entered is closed when it is reached.  This is where the real collectors take their locks.
+	holdA   int
+	entered chan struct{}
+	release chan struct{}
 	live    map[string]int // client address -> associations added and not yet removed
 	inner   service.UDPMetrics
 	innerSS service.ShadowsocksConnMetrics
@@ -307,7 +312,12 @@ func (c *connRec) RemoveNatEntry() {
 	c.r.mu.Lock()
 	c.r.live[c.client]--
 	c.r.add(mEvent{M: "NatRemove", A: c.a, Client: c.client, KeyID: c.keyID})
+	hold := c.r.holdA != 0 && c.r.holdA == c.a
 	c.r.mu.Unlock()
+	if hold {
+		close(c.r.entered)
+		<-c.r.release
+	}
 	if c.inner != nil {
 		c.inner.RemoveNatEntry()
 	}
